@@ -21,6 +21,7 @@ RULE = ("Trees built through the public API (constructor, add_child, add_namespa
         "from the generated spec.  Legacy codec: round trip on (id, name, attributes, content, children) and textual "
         "idempotence; to_20210209(legacy document) loads as the same tree with empty namespace data.  Non-trivial: >= 3 "
         "nodes carrying tail / extras / prefix / a namespace map that differs from the parent's; distinct trees by hash.")
+RULE += ('  A subtree saved on its own (to_json on an inner node, both indents) must reload as that subtree and leave the tree unchanged.')
 ASSUMPTIONS = [
     "to_20210209 is extracted from utils/convert.py with ast (the module configures logging and needs click at import)",
     "names, prefixes and URIs contain no lone surrogates (content and attribute values may)",
